@@ -19,7 +19,10 @@ Two parts.
     and with one merged rectangle, against a unit-edge model: a stroke paints its unit edges, a
     cell side reports the latest paint of its edge (so both neighbours agree), edges interior to the
     rectangle report None; every distinct state of the probing plans is saved, reopened and compared,
-    and "rs" events continue a history on the document as reloaded from its own file.
+    and "rs" events continue a history on the document as reloaded from its own file. Families: "redraw"
+    (a, then b sharing a unit edge with a, then a again with a third border - complete over all such
+    pairs, also with a save+reopen before the redraw) and "two-tables" (strokes on the same side and
+    row/column index of two tables of one loaded document).
     Plans (border_plan): geometry "all" = any stroke at every step, "collinear" = later strokes lie on
     the first stroke's grid line (the only strokes that can share an edge or a stored layer with it);
     borders "all" = B1/B2/B3 at every step, "cycle"/"cycle3"/"one" = rotations that keep successive
@@ -292,6 +295,8 @@ def build_style_doc(case):
 
 def eval_style_case(case):
     """Evaluate one style case (two documents). -> (failures [(ident, detail)], stats Counter)."""
+    if case.get("restyle"):
+        return eval_restyle_case(case)
     fails = []
     stats = collections.Counter()
     seen = set()
@@ -408,6 +413,78 @@ def eval_style_case(case):
     except Exception as e:  # noqa: BLE001
         fail("read-before-save", "-", f"package-unreadable-{type(e).__name__}", f"independent reader failed on the saved package: {e}")
     _rm(pa, pb)
+    stats["style_docs"] += 2
+    stats["style_cases"] += 1
+    return fails, stats
+
+
+def eval_restyle_case(case):
+    """A style applied to several cells, saved and reopened; all cell styles are read; then ONE cell's style is
+    edited in place (cell-level attribute: background, wrap, inset, vertical alignment) on the reloaded document.
+    Oracle: that cell reports the new value, every other cell still reports what it was given / what a pristine
+    document reports, on the open document and after a further save + reopen."""
+    fails = []
+    stats = collections.Counter()
+    seen = set()
+
+    def fail(view, attr, cls, detail):
+        ident = {"mechanism": "style", "view": view, "attr": attr, "class": cls}
+        k = repr(sorted(ident.items()))
+        if k not in seen:
+            seen.add(k)
+            fails.append((ident, detail))
+
+    base = baseline()
+    rr, rc_, attr, val = case["restyle"]
+    p1, p2 = _tmp("r1"), _tmp("r2")
+    views = {}
+    try:
+        doc, t, styles, written, _edges = build_style_doc(case)
+        names = [s.name for s in styles]
+        doc.save(p1)
+        d2 = Document(p1)
+        t2 = d2.sheets[0].tables[0]
+        read_table(t2)  # every cell's style and border is read before the edit
+        setattr(t2.cell(rr, rc_).style, attr, to_api(attr, val, 0))
+        views["live-after-restyle"] = read_table(t2)
+        d2.save(p2)
+        views["file-after-restyle"] = read_table(Document(p2).sheets[0].tables[0])
+    except Exception as e:  # noqa: BLE001
+        fail("restyle", "-", f"raised-{type(e).__name__}", f"restyling a loaded cell in place raised {type(e).__name__}: {e}; case {case}")
+        _rm(p1, p2)
+        return fails, stats
+    final = {(r, c): si for r, c, si, _how in case["cells"]}
+    for vname, view in views.items():
+        for rc in ALL_CELLS:
+            got = view[rc]
+            if rc in final:
+                spec = dict(case["styles"][final[rc]])
+                if rc == (rr, rc_):
+                    spec[attr] = val
+                want = expected_snap(spec, names[final[rc]], final[rc])
+                stats["style_evaluations"] += 1
+            else:
+                want = base[rc]["style"]
+                stats["unstyled_evaluations"] += 1
+            if isinstance(got["style"], str):
+                fail(vname, "-", "style-read-raised", f"{vname}: cell {rc}: reading cell.style gave {got['style']}")
+                continue
+            for a in ATTRS + ["name"]:
+                stats["attr_comparisons"] += 1
+                g, w = got["style"][a], want[a]
+                if g == w:
+                    continue
+                if a in FLOAT_ATTRS and isinstance(g, float) and g == f32(w) and g != w:
+                    cls = "float32-rounding"
+                elif rc == (rr, rc_):
+                    cls = "value-differs"
+                else:
+                    cls = "other-cell-changed"
+                fail(vname, a, cls, f"{vname}: after {attr}={val!r} was set in place on cell {(rr, rc_)} of the reloaded document, cell {rc} reports {a}={g!r}, expected {w!r}")
+            wantv = written.get(rc, base[rc]["value"])
+            if got["value"] != wantv:
+                fail(vname, "value", "value-differs", f"{vname}: cell {rc} value {got['value']} expected {wantv}")
+    _rm(p1, p2)
     stats["style_docs"] += 2
     stats["style_cases"] += 1
     return fails, stats
@@ -614,6 +691,20 @@ def gen_style_cases(tier, seed):
             cases.append({"kind": "style", "family": "edit-after-save", "styles": tr, "edits": {a: v},
                           "cells": [[1, 1, 0, "obj"], [1, 2, 0, "name"], [2, 1, 1, "obj"], [0, 2, 2, "wobj"]], "ctor": "kwargs", "autoname": False})
             ei += 1
+    # (f) a style shared by several cells, reloaded, then ONE cell's style edited in place (cell-level attributes:
+    # text-level attributes set in place on a loaded cell are not written by the library and are not judged)
+    s0 = {"bold": True, "bg_color": [0, 255, 255], "font_size": 14.25}
+    s1 = {"italic": True, "text_inset": 1.0}
+    sharing = [[1, 1, 0, "obj"], [1, 2, 0, "name"], [2, 2, 0, "wobj"], [2, 1, 1, "obj"], [0, 2, 1, "name"]]
+    rvals = {"bg_color": pc["bg_color"] if tier == "thorough" else [[255, 0, 255], seed_color(seed, 3)],
+             "text_wrap": [False],
+             "text_inset": INDENTS if tier == "thorough" else [0.0, 2.25],
+             "alignment": [["auto", "middle"], ["auto", "bottom"]]}
+    for a, vals in rvals.items():
+        for v in vals:
+            for target in ((1, 1), (1, 2), (2, 2), (2, 1)):
+                cases.append({"kind": "style", "family": "loaded-restyle", "styles": [s0, s1], "cells": sharing, "ctor": "kwargs", "autoname": False,
+                              "restyle": [target[0], target[1], a, v]})
     # (d) the shortcut visible in update_cell_styles: styles whose concatenated fingerprints coincide
     collide = [
         [{"bg_color": [1, 23, 4]}, {"bg_color": [12, 3, 4]}],
@@ -755,38 +846,91 @@ class BState:
     pass
 
 
+_TWO = {}
+
+
+def two_table_path():
+    """A document with two 3x3 tables on one sheet, written once per process by the library itself; the
+    two-table histories start from this LOADED document."""
+    p = _TWO.get(os.getpid())
+    if p is None or not os.path.exists(p):
+        doc = Document(num_rows=NR, num_cols=NC, num_header_rows=0, num_header_cols=0)
+        doc.sheets[0].add_table("Second", 400, 0, NR, NC)
+        t2 = doc.sheets[0].tables[1]
+        if (t2.num_rows, t2.num_cols) != (NR, NC):
+            raise RuntimeError(f"second table is {t2.num_rows}x{t2.num_cols}")
+        p = Scratch.path(f"c15-two-tables-{os.getpid()}.numbers")
+        doc.save(p)
+        _TWO.clear()
+        _TWO[os.getpid()] = p
+    return p
+
+
+def shares_edge(a, b):
+    return bool(set(stroke_edges(*a)) & set(stroke_edges(*b)))
+
+
+def layer_of(side, r, c):
+    return (side, r if side in ("top", "bottom") else c)
+
+
 class BorderSpec:
     """geometry: "all" | "collinear" (every stroke after the first lies on the first stroke's grid line);
     borders: "all" (B1, B2, B3 at every step) | "cycle" (any first; then B1->B2, B2->B3, B3->B1 or B3 again)
-             | "cycle3" (any first; then B1->B2, B2->B3, B3->B1) | "one" (B1 first; then as cycle3)."""
+             | "cycle3" (any first; then B1->B2, B2->B3, B3->B1) | "one" (B1 first; then as cycle3).
+    family (overrides the two above):
+      "redraw"     a with B1; then ONE compound step [b with B2, a again with B3] for every stroke b that shares a unit edge with a
+      "redraw-rs"  the same with a save + reopen between b and the second a
+      "two-tables" loaded document with two tables: a with B1 on the first table, then every stroke b with B2 on the SECOND
+                   table that has a's side (thorough) / a's side and row-or-column index (quick)."""
 
-    def __init__(self, geometry="all", borders="all", reopen=False):
+    def __init__(self, geometry="all", borders="all", reopen=False, family=None, wide=False):
         self.geometry = geometry
         self.borders = borders
         self.reopen = reopen  # every stroke after the first is preceded by ONE save + reopen of the document ("rs" events)
+        self.family = family
+        self.wide = wide
+
+    def _tables(self, doc):
+        return list(doc.sheets[0].tables)
 
     def initial(self, init_id):
         shape, rot = init_id.split("|")
         rot = int(rot)
         st = BState()
-        st.doc = Document(num_rows=NR, num_cols=NC, num_header_rows=0, num_header_cols=0)
-        st.t = st.doc.sheets[0].tables[0]
         st.rect = None
+        if shape == "two":
+            st.doc = Document(two_table_path())
+        else:
+            st.doc = Document(num_rows=NR, num_cols=NC, num_header_rows=0, num_header_cols=0)
+        st.tabs = self._tables(st.doc)
         if shape.startswith("m:"):
             st.rect = tuple(int(x) for x in shape[2:].split(","))
-            st.t.merge_cells(f"{a1(st.rect[0], st.rect[1])}:{a1(st.rect[2], st.rect[3])}")
+            st.tabs[0].merge_cells(f"{a1(st.rect[0], st.rect[1])}:{a1(st.rect[2], st.rect[3])}")
         st.looks = {"B1": PALETTE[rot % 3], "B2": PALETTE[(rot + 1) % 3], "B3": PALETTE[(rot + 2) % 3]}
         lk = st.looks["B3"]
         st.b3 = Border(lk[0], RGB(*lk[1]), lk[2])  # ONE object, reused by every B3 stroke
-        st.edges = {}
-        st.older = collections.defaultdict(list)  # edge -> looks painted earlier (for labelling only)
+        st.E = [{} for _ in st.tabs]  # per table: unit edge -> look
+        st.older = [collections.defaultdict(list) for _ in st.tabs]  # looks painted earlier (for labelling only)
         st.line = None
         st.last = None
+        st.first = None
         st.n = 0
         st.reopened = 0
         return st
 
     def enabled(self, st, depth_left):
+        if self.family:
+            if st.n == 0:
+                return [["s", side, r, c, ln, "B1"] for side, r, c, ln in STROKES]
+            if st.n > 1:
+                return []
+            a = st.first
+            if self.family == "two-tables":
+                return [["s", side, r, c, ln, "B2", 1] for side, r, c, ln in STROKES
+                        if side == a[0] and (self.wide or layer_of(side, r, c) == layer_of(a[0], a[1], a[2]))]
+            third = "rs" if self.family == "redraw-rs" else "s"
+            return [["seq", ["s", *b, "B2"], [third, *a, "B3"]] for b in STROKES if shares_edge(a, b)]
         if st.last is None:
             bids = ["B1"] if self.borders == "one" else ["B1", "B2", "B3"]
         elif self.borders == "all":
@@ -801,45 +945,62 @@ class BorderSpec:
                 evs.append(["rs" if self.reopen and st.n >= 1 and not st.reopened else "s", side, r, c, ln, b])
         return evs
 
-    def _kind(self, st, r, c, si):
+    def _kind(self, st, ti, r, c, si):
+        if ti > 0:
+            return "second-table"
         if st.rect is None or not in_rect(st.rect, r, c):
             return "plain"
         if (r, c) == (st.rect[0], st.rect[1]):
             return "anchor-bottom-right" if SIDES[si] in ("bottom", "right") else "anchor-top-left"
         return "placeholder"
 
-    def _compare(self, st, got, viewname):
-        """-> [(ident, detail)] one per distinct (class, where) among the differing cell sides."""
-        want = model_view(st.edges, st.rect)
+    def _compare(self, st, tabs, viewname):
+        """-> [(ident, detail)] one per distinct (class, where) among the differing cell sides of all tables."""
         out = {}
-        for rc in sorted(want):
-            for si in range(4):
-                g, w = got[rc][si], want[rc][si]
-                if g == w:
-                    continue
-                e = cell_edges(*rc)[si]
-                if g is None:
-                    cls = "missing"
-                elif w is None:
-                    cls = "extra"
-                elif g in [_tup(x) for x in st.older.get(e, [])]:
-                    cls = "stale"
-                else:
-                    cls = "wrong"
-                where = self._kind(st, rc[0], rc[1], si)
-                ident = {"mechanism": "border", "view": viewname, "class": cls, "where": where}
-                out.setdefault(repr(sorted(ident.items())), (ident, f"{viewname} view: cell {rc} {SIDES[si]} reports {g}, the unit-edge model says {w} "
-                                                            f"(table {'plain' if st.rect is None else 'with merged ' + str(st.rect)})"))
+        for ti, t in enumerate(tabs):
+            rect = st.rect if ti == 0 else None
+            want = model_view(st.E[ti], rect)
+            got = impl_view(t)
+            for rc in sorted(want):
+                for si in range(4):
+                    g, w = got[rc][si], want[rc][si]
+                    if g == w:
+                        continue
+                    e = cell_edges(*rc)[si]
+                    if g is None:
+                        cls = "missing"
+                    elif w is None:
+                        cls = "extra"
+                    elif g in [_tup(x) for x in st.older[ti].get(e, [])]:
+                        cls = "stale"
+                    else:
+                        cls = "wrong"
+                    where = self._kind(st, ti, rc[0], rc[1], si)
+                    ident = {"mechanism": "border", "view": viewname, "class": cls, "where": where}
+                    out.setdefault(repr(sorted(ident.items())), (ident, f"{viewname} view: table {ti} cell {rc} {SIDES[si]} reports {g}, the unit-edge model says {w} "
+                                                                f"(table {'plain' if rect is None else 'with merged ' + str(rect)})"))
         return list(out.values())
 
     def apply(self, st, ev):
-        kind, side, r, c, ln, bid = ev
+        if ev[0] == "seq":  # compound step: several strokes in one transition
+            fails, outcome = [], "?"
+            for sub in ev[1:]:
+                f, outcome = self._apply1(st, sub)
+                fails += f
+                if outcome == "exception":
+                    break
+            return fails, "+".join(sub[0] for sub in ev[1:]) + ":" + outcome
+        return self._apply1(st, ev)
+
+    def _apply1(self, st, ev):
+        kind, side, r, c, ln, bid = ev[:6]
+        ti = ev[6] if len(ev) > 6 else 0
         if kind == "rs":  # continue on the document as the library reads it back from its own file
             p = _tmp("r")
             try:
                 st.doc.save(p)
                 st.doc = Document(p)
-                st.t = st.doc.sheets[0].tables[0]
+                st.tabs = self._tables(st.doc)
                 st.reopened += 1
             except Exception as e:  # noqa: BLE001
                 _rm(p)
@@ -848,12 +1009,14 @@ class BorderSpec:
         lk = st.looks[bid]
         border = st.b3 if bid == "B3" else Border(lk[0], RGB(*lk[1]), lk[2])
         es = stroke_edges(side, r, c, ln)
-        refuse = interior(st.rect, es[0])  # documented: the start cell's side is merged away -> warning, nothing drawn
+        rect = st.rect if ti == 0 else None
+        edges = st.E[ti]
+        refuse = interior(rect, es[0])  # documented: the start cell's side is merged away -> warning, nothing drawn
         fails = []
         try:
             with warnings.catch_warnings(record=True) as w:
                 warnings.simplefilter("always")
-                st.t.set_cell_border(r, c, side, border, ln)
+                st.tabs[ti].set_cell_border(r, c, side, border, ln)
             warned = any(issubclass(x.category, RuntimeWarning) and "merged" in str(x.message) for x in w)
         except Exception as e:  # noqa: BLE001
             fails.append(({"mechanism": "border", "view": "live", "class": f"raised-{type(e).__name__}", "where": "-"}, f"{ev}: set_cell_border raised {type(e).__name__}: {e}"))
@@ -862,39 +1025,38 @@ class BorderSpec:
         st.last = bid
         if st.line is None:
             st.line = stroke_line(side, r, c)
+            st.first = (side, r, c, ln)
         if refuse:
-            outcome = "refused+ext" if any(not interior(st.rect, e) for e in es) else "refused"
+            outcome = "refused+ext" if any(not interior(rect, e) for e in es) else "refused"
             if not warned:
                 fails.append(({"mechanism": "border", "view": "live", "class": "merged-edge-accepted-silently", "where": "-"},
-                              f"{ev}: the start cell's {side} edge is inside merged {st.rect} but no RuntimeWarning was issued"))
+                              f"{ev}: the start cell's {side} edge is inside merged {rect} but no RuntimeWarning was issued"))
         else:
             if warned:
                 fails.append(({"mechanism": "border", "view": "live", "class": "refused-visible-edge", "where": "-"},
                               f"{ev}: RuntimeWarning 'merged' although the start cell's {side} edge is not inside a merged rectangle"))
-            visible = [e for e in es if not interior(st.rect, e)]
-            outcome = ("overlap" if any(e in st.edges for e in visible) else "fresh") + ("+cross" if len(visible) < len(es) else "")
+            visible = [e for e in es if not interior(rect, e)]
+            outcome = ("overlap" if any(e in edges for e in visible) else "fresh") + ("+cross" if len(visible) < len(es) else "")
             for e in es:
-                if e in st.edges:
-                    st.older[e].append(st.edges[e])
-                st.edges[e] = lk
+                if e in edges:
+                    st.older[ti][e].append(edges[e])
+                edges[e] = lk
         try:
-            got = impl_view(st.t)
+            fails += self._compare(st, st.tabs, "live")
         except Exception as e:  # noqa: BLE001
             fails.append(({"mechanism": "border", "view": "live", "class": f"read-raised-{type(e).__name__}", "where": "-"}, f"after {ev}: reading cell.border raised {type(e).__name__}: {e}"))
             return fails, "exception"
-        fails += self._compare(st, got, "live")
-        return fails, outcome
+        return fails, outcome + ("@t1" if ti else "")
 
     def probe(self, st):
         fails = []
         p = _tmp("b")
         try:
-            live0 = impl_view(st.t)
+            live0 = [impl_view(t) for t in st.tabs]
             st.doc.save(p)
-            if impl_view(st.t) != live0:
+            if [impl_view(t) for t in st.tabs] != live0:
                 fails.append(({"mechanism": "border", "view": "live", "class": "save-changed-live-view", "where": "-"}, "saving changed the borders reported by the open document"))
-            t2 = Document(p).sheets[0].tables[0]
-            fails += self._compare(st, impl_view(t2), "file")
+            fails += self._compare(st, self._tables(Document(p)), "file")
         except Exception as e:  # noqa: BLE001
             fails.append(({"mechanism": "border", "view": "file", "class": f"raised-{type(e).__name__}", "where": "-"}, f"save/reopen raised {type(e).__name__}: {e}"))
         _rm(p)
@@ -902,54 +1064,84 @@ class BorderSpec:
 
     def key(self, st):
         m = st.doc._model
-        tid = st.t._table_id
-        sc = m.objects[m.objects[tid].stroke_sidecar.identifier]
-        fp = [sc.max_order]
-        for nm in ("top_row_stroke_layers", "right_column_stroke_layers", "bottom_row_stroke_layers", "left_column_stroke_layers"):
-            layers = []
-            for ref in getattr(sc, nm):
-                lay = m.objects[ref.identifier]
-                layers.append((lay.row_column_index, [(x.origin, x.length, x.order, round(x.stroke.width, 3), int(x.stroke.pattern.type),
-                                                       round(x.stroke.color.r, 3), round(x.stroke.color.g, 3), round(x.stroke.color.b, 3)) for x in lay.stroke_runs]))
-            fp.append(sorted(layers))
+        fp = []
         orders = []
-        for row in st.t._data:
-            for cell in row:
-                b = getattr(cell, "_border", None)
-                orders.append(tuple(getattr(getattr(b, "_" + s, None), "_order", None) for s in SIDES) if b is not None else None)
-        return repr((sorted(st.edges.items()), st.rect, st.line if self.geometry == "collinear" else None,
-                     st.last if self.borders != "all" else None, st.reopened, getattr(st.b3, "_order", None), fp, orders))
+        for t in st.tabs:
+            sc = m.objects[m.objects[t._table_id].stroke_sidecar.identifier]
+            fp.append(sc.max_order)
+            for nm in ("top_row_stroke_layers", "right_column_stroke_layers", "bottom_row_stroke_layers", "left_column_stroke_layers"):
+                layers = []
+                for ref in getattr(sc, nm):
+                    lay = m.objects[ref.identifier]
+                    layers.append((lay.row_column_index, [(x.origin, x.length, x.order, round(x.stroke.width, 3), int(x.stroke.pattern.type),
+                                                           round(x.stroke.color.r, 3), round(x.stroke.color.g, 3), round(x.stroke.color.b, 3)) for x in lay.stroke_runs]))
+                fp.append(sorted(layers))
+            for row in t._data:
+                for cell in row:
+                    b = getattr(cell, "_border", None)
+                    orders.append(tuple(getattr(getattr(b, "_" + s, None), "_order", None) for s in SIDES) if b is not None else None)
+        return repr(([sorted(e.items()) for e in st.E], st.rect, st.line if self.geometry == "collinear" else None,
+                     st.last if self.borders != "all" else None, (st.first, st.n) if self.family else None, st.reopened,
+                     getattr(st.b3, "_order", None), fp, orders))
 
 
 SPECS = {f"{g}-{b}": BorderSpec(g, b) for g in ("all", "collinear") for b in ("all", "cycle", "cycle3", "one")}
 SPECS["collinear-one-reopen"] = BorderSpec("collinear", "one", reopen=True)
 SPECS["collinear-cycle3-reopen"] = BorderSpec("collinear", "cycle3", reopen=True)
+SPECS["redraw"] = BorderSpec(family="redraw")
+SPECS["redraw-rs"] = BorderSpec(family="redraw-rs")
+SPECS["two-tables"] = BorderSpec(family="two-tables")
+SPECS["two-tables-wide"] = BorderSpec(family="two-tables", wide=True)
+
+
+class MultiSpec:
+    """Several specs explored in ONE level-synchronous search: the init id is "<spec name>@<shape>|<rotation>"."""
+
+    def initial(self, init_id):
+        name, rest = init_id.split("@", 1)
+        st = SPECS[name].initial(rest)
+        st.spec = SPECS[name]
+        st.specname = name
+        return st
+
+    def enabled(self, st, depth_left):
+        return st.spec.enabled(st, depth_left)
+
+    def apply(self, st, ev):
+        return st.spec.apply(st, ev)
+
+    def probe(self, st):
+        return st.spec.probe(st)
+
+    def key(self, st):
+        return st.specname + "|" + st.spec.key(st)
+
+
+MULTI = MultiSpec()
 
 
 def border_plan(tier, seed):
-    """[(spec name, init ids, depth, probe every distinct state)]"""
+    """[(depth, probe every distinct state, [init ids "<spec>@<shape>|<rot>"])] - one explorer run per entry"""
     rot = seed % 3
     plain = f"plain|{rot}"
+    two = f"two|{rot}"
 
     def merged(i):
         return "m:" + ",".join(map(str, RECTS[i % len(RECTS)])) + f"|{rot}"
 
     if tier == "quick":
         return [
-            ("all-cycle", [plain], 2, False),
-            ("collinear-cycle3", [plain], 2, True),
-            ("collinear-one", [merged(seed)], 2, True),
-            ("collinear-one-reopen", [plain], 2, False),
-            ("collinear-cycle3", [merged(seed + 1)], 2, False),
+            (2, False, [f"all-cycle3@{plain}", f"collinear-one-reopen@{plain}", f"collinear-cycle3@{merged(seed + 1)}"]),
+            (2, True, [f"collinear-cycle3@{plain}", f"collinear-one@{merged(seed)}", f"redraw@{plain}", f"redraw@{merged(seed)}",
+                       f"redraw-rs@{plain}", f"two-tables@{two}"]),
         ]
     return [
-        ("all-all", [plain, merged(seed)], 2, False),
-        ("all-cycle3", [plain], 2, True),
-        ("collinear-cycle", [plain, merged(seed + 1)], 3, False),
-        ("collinear-one", [plain], 3, True),
-        ("collinear-cycle3", [merged(seed + i) for i in range(3)], 2, True),
-        ("collinear-cycle3-reopen", [plain], 2, True),
-        ("collinear-one-reopen", [merged(seed), merged(seed + 1)], 2, True),
+        (2, False, [f"all-all@{plain}", f"all-all@{merged(seed)}"]),
+        (3, False, [f"collinear-cycle@{plain}"]),
+        (2, True, [f"all-cycle3@{plain}"] + [f"collinear-cycle3@{merged(seed + i)}" for i in range(3)] + [f"collinear-cycle3-reopen@{plain}"]
+         + [f"collinear-one-reopen@{merged(seed + i)}" for i in range(2)] + [f"redraw@{plain}"] + [f"redraw@{merged(seed + i)}" for i in range(3)]
+         + [f"redraw-rs@{plain}", f"redraw-rs@{merged(seed)}", f"two-tables-wide@{two}"]),
+        (3, True, [f"collinear-one@{plain}"]),
     ]
 
 
@@ -962,7 +1154,7 @@ def replay(rep, payload):
     elif isinstance(rep, dict) and rep.get("kind") == "fixture":
         fails, _ = eval_fixture_case(rep)
     else:
-        spec = SPECS[rep.get("spec", "all-all")]
+        spec = MULTI if "@" in rep["init"] else SPECS[rep.get("spec", "all-all")]
         fails = explore.replay_history(spec, rep["init"], rep["history"], probe=rep.get("probe", False))
     hit = [d for i, d in fails if i == want]
     text = "; ".join((hit or [d for _, d in fails])[:3]) or "agrees with the oracle"
@@ -992,16 +1184,12 @@ def main():
     # ---- part 2: borders (state-space search)
     run.max_samples = 14
     plan_only = {int(x) for x in os.environ.get("C15_PLAN", "").split(",") if x.strip()}  # development aid: a subset of the border plan
-    for i, (sname, inits, depth, probe) in enumerate([] if only == "styles" else border_plan(args.tier, args.seed)):
+    for i, (depth, probe, inits) in enumerate([] if only == "styles" else border_plan(args.tier, args.seed)):
         if plan_only and i not in plan_only:
             continue
-        nb = len(run.failures)
         before = dict(run.counters)
-        explore.explore(f"c15-{sname}", SPECS[sname], inits, depth, run, jobs=args.jobs, probe=probe, tag=f"#{i}@d{depth}")
-        for rec in list(run.failures.values())[nb:]:
-            if isinstance(rec["replay"], dict) and "kind" not in rec["replay"]:
-                rec["replay"].setdefault("spec", sname)
-        run.extra.setdefault("plan", []).append({"spec": sname, "inits": inits, "depth": depth, "probe_every_state": probe,
+        explore.explore("c15", MULTI, inits, depth, run, jobs=args.jobs, probe=probe, tag=f"#{i}@d{depth}{'+probe' if probe else ''}")
+        run.extra.setdefault("plan", []).append({"inits": inits, "depth": depth, "probe_every_state": probe,
                                                   "transitions": run.counters["transitions"] - before.get("transitions", 0),
                                                   "states": run.counters["states"] - before.get("states", 0),
                                                   "probes": run.counters["probes"] - before.get("probes", 0)})
@@ -1016,7 +1204,10 @@ def main():
     run.floor(">= 1 history in which two strokes overlap, >= 1 refused stroke that would have run on beyond the merged rectangle, >= 1 accepted stroke crossing "
               "interior edges, >= 1 stroke over an existing one after save+reopen",
               oc.get("s:overlap", 0) >= 1 and oc.get("s:refused+ext", 0) >= 1 and any(k.endswith("+cross") for k in oc) and oc.get("rs:overlap", 0) >= 1)
-    run.floor(">= 20000 stroke transitions and >= 1000 save/reopen probes", run.counters["transitions"] >= 20000 and run.counters["probes"] >= 1000)
+    run.floor("redraw triples [a, b sharing an edge with a, a again]: >= 1000 executed, >= 500 more with a save+reopen before the redraw; >= 400 strokes on a second table",
+              sum(v for k, v in oc.items() if k.startswith("seq:s+s:")) >= 1000 and sum(v for k, v in oc.items() if k.startswith("seq:s+rs:")) >= 500
+              and sum(v for k, v in oc.items() if k.endswith("@t1")) >= 400)
+    run.floor(">= 15000 stroke transitions and >= 1000 save/reopen probes", run.counters["transitions"] >= 15000 and run.counters["probes"] >= 1000)
     run.assume("border looks are three representatives (solid/dashes/dots, widths 2.0/3.0/0.35); widths needing more than 2 decimals, the 'none' pattern, tables other than 3x3, "
                "more than one merged rectangle and histories longer than the depth bound are not explored")
     run.assume("style values outside the enumerated domains (other sizes/indents, the 16.7 million colours not on the lattice, gradients, which cannot be written) are represented, not enumerated; "
